@@ -557,6 +557,7 @@ func locateLabel(tree *model.Node, label string) *model.Node {
 	}
 	cur := tree
 	for _, p := range parts[1:] {
+		p = strings.ReplaceAll(p, "`", "") // a delimited identifier (`div`) names the JSON key div
 		name, idx := p, -1
 		if i := strings.IndexByte(p, '['); i >= 0 && strings.HasSuffix(p, "]") {
 			name = p[:i]
